@@ -97,6 +97,10 @@ theorem q_append (qs : List TQ) (q : Nat) :
 @[simp] theorem q_mk_append (s : TState) (lv a m pcs d lt c) (q : Nat) :
     (TState.mk (s.queues ++ [({} : TQ)]) lv a m pcs d lt c).q q = s.q q := q_append s.queues q
 
+attribute [grind =] setPc_queues setPc_levels setPc_active setPc_mainLock setPc_dispatched setPc_lastTaken
+  setPc_completed setQ_levels setQ_active setQ_mainLock setQ_pcs setQ_dispatched setQ_lastTaken setQ_completed
+  setQ_queues_length pc_mk_same q_mk_same setQ_pc setPc_q setPc_pc setQ_q q_mk_append
+
 /-! ### the predicates on code positions compute on constructors (equation lemmas as simp rules; the
 predicates are never unfolded on a variable) -/
 
@@ -115,6 +119,7 @@ attribute [simp] PC.valid.eq_1 PC.valid.eq_2 PC.valid.eq_3 PC.valid.eq_4 PC.vali
   PC.valid.eq_14
 attribute [simp] PC.snapOK.eq_1 PC.snapOK.eq_2 PC.snapOK.eq_3 PC.snapOK.eq_4 PC.snapOK.eq_5 PC.snapOK.eq_6
   PC.snapOK.eq_7
+attribute [simp] PC.postId.eq_1 PC.postId.eq_2 PC.postId.eq_3
 attribute [simp] PC.activeOK.eq_1 PC.activeOK.eq_2 PC.activeOK.eq_3 PC.activeOK.eq_4 PC.activeOK.eq_5
 
 /-! ### the step relation -/
